@@ -83,9 +83,9 @@ class SeriesSym(P.PolySym):
             if a is S.TOP or b is S.TOP:
                 return S.TOP           # e.g. |norm - 1| of symbolic data vs eps: a validity test, left to the caller
             if isinstance(a, AbsJet):
-                a = a.jet if a.jet.vz() >= 1 else S.TOP     # |x| < thr with x vanishing at the identity: a magnitude switch on x
+                a = a.jet if J.split_eta(a.jet)[0].vz() >= 1 else S.TOP     # |x| < thr with x vanishing at the identity: a magnitude switch on x
             if isinstance(b, AbsJet):
-                b = b.jet if b.jet.vz() >= 1 else S.TOP
+                b = b.jet if J.split_eta(b.jet)[0].vz() >= 1 else S.TOP
             if a is S.TOP or b is S.TOP:
                 return S.TOP
             def constify(x):
@@ -94,18 +94,24 @@ class SeriesSym(P.PolySym):
                     if c0.is_Rational:
                         return S.Aff(S.Fraction(int(c0.p), int(c0.q)))
                 return x
-            a, b = constify(a), constify(b)
+            def unperturbed(x):
+                """a comparison is decided at the unperturbed point: a jet that is zero there is the constant 0"""
+                j_ = x.jet if isinstance(x, AbsJet) else x
+                if isinstance(j_, J.JetNum) and J.NILPOTENT is not None and not J.split_eta(j_)[0].c:
+                    return S.Aff(0)
+                return x
+            a, b = constify(unperturbed(a)), constify(unperturbed(b))
 
             def symbolic(x):
                 return isinstance(x, J.JetNum) and not x.is_const()
             def threshold(x):      # a small positive constant (eps, eps_sqrt, a literal): a precision switch
                 return isinstance(x, S.Aff) and x.is_const() and 0 < x.c <= S.Fraction(1, 100)
             def vanishing(x):
-                return symbolic(x) and x.vz() >= 1
+                return symbolic(x) and J.split_eta(x)[0].vz() >= 1       # a first-order perturbation does not move a switch
             if threshold(b) and vanishing(a):
-                return (n0["op"] in ("<", "<=")) == self.small_side(b.c, a.vz(), n0)
+                return (n0["op"] in ("<", "<=")) == self.small_side(b.c, max(1, J.split_eta(a)[0].vz()), n0)
             if threshold(a) and vanishing(b):
-                return (n0["op"] in (">", ">=")) == self.small_side(a.c, b.vz(), n0)
+                return (n0["op"] in (">", ">=")) == self.small_side(a.c, max(1, J.split_eta(b)[0].vz()), n0)
             if isinstance(a, (S.Aff, S.Poly)) and isinstance(b, (S.Aff, S.Poly)) and (symbolic(a) or symbolic(b)):
                 # sign conditions on symbolic data (cos_angle < 0): decided by the value at the identity when it is non-zero
                 d = J.add(a, b, -1)
@@ -445,6 +451,8 @@ def _worker(job):
                     raise C.AnalysisBroken("R-SERIES.small: %s of %s reaches a precision switch only on a small-angle side (%s): extend the world enumeration" % (what, v, sorted(new)))
     except C.AnalysisBroken as ex:
         return v, what, 0, col.n_ok, col.findings, str(ex), worlds
+    except (ArithmeticError, ValueError, TypeError, KeyError, AttributeError, RecursionError) as ex:
+        return v, what, 0, col.n_ok, col.findings, "R-SERIES: interpreter error on %s/%s: %r" % (v, what, ex), worlds
     return v, what, n, col.n_ok, col.findings, None, worlds
 
 
